@@ -1,4 +1,5 @@
 import WV.Proofs.C20
+import WV.Proofs.C20_Gen
 
 /-!
 C20 — peer connection hints are untrusted: never a crash, only valid hints dialled.
@@ -169,6 +170,144 @@ theorem only_valid_dialled_dilation (d d' : Dil) (kvs : List (String × J)) (hin
       cases h
       exact ⟨[], by simp, by simp⟩
 
+/-! ## hints in every reachable Manager state and generation
+
+`GDil` (Model/C20.lean) is the Manager's machine around `use_hints`, read from the generated `Manager` and
+`Connector` tables: PLEASE as Leader or Follower, hints messages, RECONNECT / RECONNECTING, a connection made and
+lost, `stop()`, timers.  Every `_schedule_connection` call and every dial carries the number of the Connector that
+made it.  `GDil.run` is a history: an op the network cannot perform is skipped, `NoTransition` (a message the
+machine has no row for — raised before anything changes) is survived, any other exception ends it. -/
+
+/-- **hints_total, all histories.**  Whatever the configuration (Tor, listener, own relay, what the application's
+    status callback does with the set it is handed) and whatever history of in-scope ops — any number of generations,
+    Connectors abandoned while connecting (`stop_connecting`), connections made / lost / abandoned, `stop()`, several
+    hints messages per generation with arbitrary JSON lists in hint position, in every Manager state —
+    no op raises anything but `NoTransition`: neither a hints message, nor the start of a new generation
+    (`Connector.start()` uses the relay hints and reports them through `_hint_status`). -/
+theorem hints_total_generations (tor noListen own cb : Bool) (ops : List GOp) (hs : ∀ op ∈ ops, op.InScope) :
+    ∃ d0, GDil.init tor noListen own cb = .ok d0 ∧ (d0.run ops).2 = none := by
+  obtain ⟨d0, h0, inv, _⟩ := init_spec tor noListen own cb (ops.flatMap GOp.hintItems)
+    ((ops.flatMap GOp.hintItems).flatMap subSources)
+  refine ⟨d0, h0, (run_spec ops inv hs ?_ ?_).1⟩
+  · exact fun op ho x hx => List.mem_flatMap.mpr ⟨op, ho, hx⟩
+  · exact fun op ho x hx y hy => List.mem_flatMap.mpr ⟨x, List.mem_flatMap.mpr ⟨op, ho, hx⟩, hy⟩
+
+/-- a single in-scope op on a state that satisfies the invariant of all reachable states: it succeeds and keeps the
+    invariant and the configuration, or it is refused with `NoTransition` -/
+theorem hints_total_step {D R : List J} {d : GDil} (inv : GInv D R d) (op : GOp) (hs : op.InScope)
+    (hD : ∀ x ∈ op.hintItems, x ∈ D) (hR : ∀ x ∈ op.hintItems, ∀ y ∈ subSources x, y ∈ R) (hen : d.enabled op = true) :
+    (∃ d', d.step op = .ok d' ∧ GInv D R d' ∧ SameCfg d d') ∨ d.step op = .error .noTransition :=
+  gstep_spec inv op hs hD hR hen
+
+/-- **only_valid_dialled, all histories.**  After any history, every `_schedule_connection` call of any generation
+    (and so every dial: a dial is a fired timer of a scheduled call that has an endpoint) is for this side's own
+    relay or for a JSON object some hints message of the history carried — top-level for a direct attempt, a
+    `relay-v1` sub-hint for a relay attempt — of type `direct-tcp-v1`/`tor-tcp-v1` with a string hostname and a
+    non-bool integer port; the calls carry the number of an existing Connector. -/
+theorem only_valid_dialled_generations (tor noListen own cb : Bool) (ops : List GOp) (hs : ∀ op ∈ ops, op.InScope)
+    (d0 : GDil) (h0 : GDil.init tor noListen own cb = .ok d0) :
+    let d := (d0.run ops).1
+    (∀ p ∈ d.dials, p ∈ d.sched ∧ p.2.ep = true) ∧
+    ∀ p ∈ d.sched, p.1 < d.gen ∧
+      ((p.2.relay = false ∧ ∃ src ∈ ops.flatMap GOp.hintItems, SchedSupported tor src p.2 ∧ (tor = false → p.2.kind = .direct)) ∨
+       (p.2.relay = true ∧ ((own = true ∧ p.2.host = .str "relay.example" ∧ p.2.port = .int 4001) ∨
+         ∃ src ∈ (ops.flatMap GOp.hintItems).flatMap subSources, SchedSupported tor src p.2))) := by
+  intro d
+  obtain ⟨d0', h0', inv, ht, _, ho, _⟩ := init_spec tor noListen own cb (ops.flatMap GOp.hintItems)
+    ((ops.flatMap GOp.hintItems).flatMap subSources)
+  rw [h0] at h0'
+  cases h0'
+  obtain ⟨_, inv', cfg⟩ := run_spec ops inv hs (fun op ho x hx => List.mem_flatMap.mpr ⟨op, ho, hx⟩)
+    (fun op ho x hx y hy => List.mem_flatMap.mpr ⟨x, List.mem_flatMap.mpr ⟨op, ho, hx⟩, hy⟩)
+  refine ⟨inv'.data.dials_ok, fun p hp => ⟨(inv'.data.sched_ok p hp).1, ?_⟩⟩
+  have h := (inv'.data.sched_ok p hp).2
+  have e1 : d.tor = tor := cfg.1.trans ht
+  have e2 : d.own = own := cfg.2.2.1.trans ho
+  rw [show (d0.run ops).1 = d from rfl, e1, e2] at h
+  exact h.supported
+
+/-- **an abandoned generation never dials.**  After any history, every timer that can still fire belongs to the
+    current Connector, and that Connector is still connecting: `stop_connecting` (RECONNECT or `stop()` while
+    CONNECTING) and the selection of a winner cancel what the old Connector had scheduled. -/
+theorem abandoned_generation_never_dials (tor noListen own cb : Bool) (ops : List GOp) (hs : ∀ op ∈ ops, op.InScope)
+    (d0 : GDil) (h0 : GDil.init tor noListen own cb = .ok d0) :
+    ∀ p ∈ (d0.run ops).1.pending, p.1 + 1 = (d0.run ops).1.gen ∧ (d0.run ops).1.con = some .connecting := by
+  obtain ⟨d0', h0', inv, _⟩ := init_spec tor noListen own cb (ops.flatMap GOp.hintItems)
+    ((ops.flatMap GOp.hintItems).flatMap subSources)
+  rw [h0] at h0'
+  cases h0'
+  exact (run_spec ops inv hs (fun op ho x hx => List.mem_flatMap.mpr ⟨op, ho, hx⟩)
+    (fun op ho x hx y hy => List.mem_flatMap.mpr ⟨x, List.mem_flatMap.mpr ⟨op, ho, hx⟩, hy⟩)).2.1.data.pend_cur
+
+/-- **the hints of a message reach the current generation.**  In any reachable state with the Manager CONNECTING —
+    first generation or any later one, after an abandoned attempt or an ordinary reconnect — a hints message is
+    parsed and exactly what `Connector._use_hints` makes of *this* message is scheduled on the current Connector
+    (number `gen - 1`, which is connecting) and starts its timers there; nothing is dialled yet, nothing else changes. -/
+theorem hints_reach_current_generation {D R : List J} {d : GDil} (inv : GInv D R d) (hm : d.mgr = .CONNECTING)
+    (kvs : List (String × J)) (l : List J) (hl : lookup "hints" kvs = some (.arr l)) :
+    ∃ hs ss d', managerUseHints (.obj kvs) = .ok hs ∧ connectorUseHints d.tor d.noListen hs = .ok ss ∧
+      d.step (.hints (.obj kvs)) = .ok d' ∧ d.con = some .connecting ∧ d'.con = d.con ∧ d'.gen = d.gen ∧ d'.mgr = d.mgr ∧
+      d'.sched = d.sched ++ ss.map (fun s => (d.gen - 1, s)) ∧ d'.pending = d.pending ++ ss.map (fun s => (d.gen - 1, s)) ∧
+      d'.dials = d.dials := by
+  obtain ⟨hs, ss, d', h1, h2, h3, ha, hc⟩ := hints_step_current inv hm kvs l hl
+  exact ⟨hs, ss, d', h1, h2, h3, hc, ha.con, ha.gen, ha.mgr, ha.sched, ha.pending, ha.dials⟩
+
+/-- a hints message (list in hint position) in a reachable state raises only when the Manager's table has no
+    `rx_HINTS` row for the state (`NoTransition`, before anything changes: WAITING and STOPPED in the generated table) —
+    never from inside `use_hints`: the Connector the hints are handed to is never a stopped one -/
+theorem hints_raise_only_without_row {D R : List J} {d : GDil} (inv : GInv D R d) (kvs : List (String × J)) (l : List J)
+    (hl : lookup "hints" kvs = some (.arr l)) (e : Err) (he : d.step (.hints (.obj kvs)) = .error e) :
+    e = .noTransition ∧ Manager.table d.mgr .rx_HINTS = none := by
+  have inv' : GInv (D ++ l) (R ++ l.flatMap subSources) d :=
+    inv.mono (fun x hx => List.mem_append_left _ hx) (fun x hx => List.mem_append_left _ hx)
+  rcases input_spec inv' .rx_HINTS (.obj kvs) none (by decide) ⟨fun h => (nomatch h), fun _ => ⟨kvs, l, rfl, hl,
+    fun x hx => List.mem_append_right _ hx, fun x hx y hy => List.mem_append_right _ (List.mem_flatMap.mpr ⟨x, hx, hy⟩)⟩⟩ with
+    ⟨d', h, _⟩ | ⟨h, hrow⟩
+  · rw [show d.step (.hints (.obj kvs)) = d.input .rx_HINTS (.obj kvs) none from rfl, h] at he
+    cases he
+  · rw [show d.step (.hints (.obj kvs)) = d.input .rx_HINTS (.obj kvs) none from rfl, h] at he
+    cases he
+    exact ⟨rfl, hrow⟩
+
+/-- the rows of the generated table without `rx_HINTS`: before `start()` and after the end -/
+example : Manager.State.all.filter (fun m => (Manager.table m .rx_HINTS).isNone) = [.STOPPED, .WAITING] := by decide
+
+/-! ### the status side channel (`_hint_status`, `_latest_status`, `DilationStatus.hints`) -/
+
+/-- every expression that ever becomes `DilationStatus.hints` — the field's default and each `hints=` of an
+    `evolve(...)`/`DilationStatus(...)` call in `_status.py`, `_dilation/manager.py`, `_dilation/connector.py`, as the
+    translator reads them from the working tree now — is syntactically a `set` (so `.union`, iteration and the
+    `set(...)` built from it in `_hint_status` are defined, whatever ran before) -/
+theorem status_hints_always_a_set : ∀ s ∈ Gen.HintGuards.statusHintSites, s.2.2 = true := by decide
+
+/-- the side channel is the one the model was written against: the only value `DilationStatus.hints` ever gets after
+    its default is `set(hints).union(self._latest_status.hints)` in `_hint_status`; `_latest_status` is assigned only at
+    construction and in `_maybe_send_status`; `_hint_status` is called only as the last statement of
+    `Connector._use_hints`, with `DilationHint(f"{hostname}:{port}", is_direct)` of each scheduled hint;
+    `_maybe_send_status` stores the status and hands it to the callback -/
+theorem status_side_channel_agrees :
+    Gen.HintGuards.statusHintSites.map (fun s => (s.1, s.2.1)) = expectedStatusSites ∧
+    Gen.HintGuards.latestStatusAssignments = expectedLatestStatusAssignments ∧
+    Gen.HintGuards.hintStatusCallers = expectedHintStatusCallers ∧
+    Gen.HintGuards.useHintsStatusStatements = expectedUseHintsStatusStatements ∧
+    Gen.HintGuards.statusSkeleton = expectedStatusSkeleton := by decide
+
+/-- **the status side channel never feeds back into hint handling.**  Whatever `_latest_status.hints` holds and
+    whatever the application's status callback does with the set it is handed (`cb`: leaves it alone / empties it), the
+    same history — from any configuration `d`, reachable or not — ends with the same exception or none, in the same
+    Manager and Connector states, with the same Connectors, scheduled connections, pending timers and dials.
+    (In the code this rests on `status_side_channel_agrees`: nothing but `_hint_status`/`_maybe_send_status` touches
+    `_latest_status`, and nothing in the hint path reads it.) -/
+theorem status_never_affects_hints (d : GDil) (st : List StatusHint) (cb : Bool) (ops : List GOp) :
+    ((d.withStatus st cb).run ops).2 = (d.run ops).2 ∧
+    ((d.withStatus st cb).run ops).1.mgr = (d.run ops).1.mgr ∧ ((d.withStatus st cb).run ops).1.con = (d.run ops).1.con ∧
+    ((d.withStatus st cb).run ops).1.gen = (d.run ops).1.gen ∧ ((d.withStatus st cb).run ops).1.sched = (d.run ops).1.sched ∧
+    ((d.withStatus st cb).run ops).1.pending = (d.run ops).1.pending ∧ ((d.withStatus st cb).run ops).1.dials = (d.run ops).1.dials ∧
+    ((d.withStatus st cb).run ops).1.noep = (d.run ops).1.noep := by
+  obtain ⟨h1, st', cb', h2⟩ := run_agree ops d st cb
+  rw [h2]
+  exact ⟨h1.symm, rfl, rfl, rfl, rfl, rfl, rfl, rfl⟩
+
 /-! ## a dead but well-typed hint never decides the race
 
 `_start_connector` chains nothing but `startNegotiation` onto the attempt (pinned by `guards_agree`),
@@ -297,5 +436,23 @@ example : (HintObj.relay ownRelay).Producible := by
   intro t ht
   exact ⟨ownRelay_valid t ht, by simp [ownRelay] at ht; subst ht; rfl⟩
 example : parseHint (encodeHint (.relay ownRelay)) = .ok (some (.relay ownRelay)) := rfl
+
+/-- the history of a Follower with a relay configured: hints, RECONNECT while still connecting, hints again, time passes -/
+def exHistory : List GOp := [.please .follower, .hints (.obj exMsg), .reconnect, .hints (.obj exMsg), .tick]
+
+/-- its ops are in scope (hypothesis of the generation theorems) -/
+example : ∀ op ∈ exHistory, op.InScope := by
+  intro op h
+  simp only [exHistory, List.mem_cons, List.not_mem_nil, or_false] at h
+  rcases h with rfl | rfl | rfl | rfl | rfl <;> first | trivial | exact ⟨_, _, rfl, rfl⟩
+
+/-- non-vacuity of the generation theorems: two Connectors are made; the first one's four timers (own relay, three
+    hints) are cancelled by `stop_connecting`; the second schedules its relay and the three hints of the second
+    message and dials the three that have an endpoint; nothing raises -/
+example : ∃ d0, GDil.init false true true false = .ok d0 ∧
+    (d0.run exHistory).2 = none ∧ (d0.run exHistory).1.gen = 2 ∧ (d0.run exHistory).1.mgr = .CONNECTING ∧
+    (d0.run exHistory).1.sched.map (·.1) = [0, 0, 0, 0, 1, 1, 1, 1] ∧ (d0.run exHistory).1.dials.map (·.1) = [1, 1, 1] ∧
+    (d0.run exHistory).1.noep = 1 ∧ (d0.run exHistory).1.pending.length = 0 ∧ (d0.run exHistory).1.status.length = 4 :=
+  ⟨_, rfl, rfl, rfl, rfl, rfl, rfl, rfl, rfl, rfl⟩
 
 end WV.Props.C20
